@@ -42,6 +42,7 @@ def run(ctx):
     pipeline(ctx, facts)
     sat_merge(ctx, facts)
     partial_nonzero(ctx, facts)
+    prf_wiring(ctx, facts)
     ctx.assume("integer_add / sharded shuffle / OPRF / breakdown-reveal aggregation compute what their names say (C07, C05, C19 and the not-decided numerical part)")
     ctx.assume("end-to-end equality of the histogram with the plaintext reference is not decided")
 
@@ -366,3 +367,91 @@ def partial_nonzero(ctx, facts):
             inst = f"{b.path.split('::')[-2] if b.path.endswith('}') else b.path.split('::')[-1]}@{b.path.split('::')[-1]}"
             ctx.ob("RANGE-partial", f"nonzero:{inst}", ok, "Partial(k) only behind k != 0" if ok else f"ChunkType::Partial(k) can be built with k == 0 (k = {str(k)[:120]}): a chunk that is in fact full, or empty, is labelled as holding no valid rows and its rows are dropped without an error", site_of(b, bb, idx))
     ctx.floor("RANGE-partial", "ChunkType::Partial constructions outside tests", n, 3)
+
+
+# ---------------------------------------------------------------------------------------------
+def prf_wiring(ctx, facts):
+    """Reports meet on a shard only if every shard evaluates the same PRF on the report's own match key, keeps the
+    report's value / breakdown key next to that PRF value, and routes by the PRF value alone."""
+    ctx.rule("WIRE-prf: compute_prf_and_reshard converts records[i].match_key; the PRF key comes from the cross-shard PRSS (identical on every shard of a helper) at one fixed record; eval_dy_prf gets (record id = chunk index, that key, the chunk's points); the PRF stream is zipped with the very input rows, in order; PrfHybridReport {match_key: prf, value: input.value, breakdown_key: input.breakdown_key}; the shard picker is report.match_key % shard_count and reads nothing else; channel sizes are ceil(rows / chunk)")
+    base = "protocol::hybrid::oprf::compute_prf_and_reshard"
+    tree = facts.tree(base)
+    main = next((b for b in tree if b.coroutine and flow.find_calls(b, re.compile(r"context::reshard_try_stream$"))), None)
+    if main is None:
+        return ctx.missing("WIRE-prf", base)
+    ctx.count(bodies=len(tree))
+    old = flow.CLOSURE_DEFS
+    flow.CLOSURE_DEFS = True
+    try:
+        def closure_arg(b, call, k):
+            e = flow.expr_of(b, call[1]["args"][k], max_depth=4)
+            return facts.bodies.get(e[1][1]) if e[0] == "agg" and isinstance(e[1], tuple) and e[1][0] == "closure" else None
+        # 1. converted match keys
+        mk = None
+        for b in tree:
+            if not b.coroutine and b.kind == "Closure" and len(b.blocks) <= 8:
+                r = flow.expr_of(b, {"cp": [0]}, max_depth=8)
+                if "match_key" in str(r) and "records" in str(r):
+                    mk = (b, r)
+        ok1 = False
+        if mk:
+            src = mk[1]
+            while src[0] == "call" and re.search(r"(Clone::clone|Deref::deref|Borrow::borrow)$", src[1]):
+                src = src[2][0]
+            # records[i].match_key : projection (index by the closure's parameter, then the field) of the chunk
+            ok1 = src[0] == "proj" and src[-1] == "match_key" and len(src) == 4 and "records" in str(src[1]) and mk[0].nargs >= 2
+        ctx.ob("WIRE-prf", "converts-own-match-key", ok1, "lane i of the conversion input is records[i].match_key" if ok1 else "the value converted for the PRF is not records[i].match_key", site_of(mk[0]) if mk else site_of(main))
+        # 2. PRF key
+        gk = facts.bodies.get("protocol::hybrid::oprf::gen_prf_key")
+        ok2 = False
+        if gk is not None:
+            g = flow.find_calls(gk, re.compile(r"SharedRandomness::generate$"))
+            ok2 = len(g) == 1 and flow.expr_of(gk, g[0][1]["args"][0], max_depth=4) == ("call", "protocol::context::ShardedContext::cross_shard_prss", (("arg", 1),)) and flow.expr_of(gk, g[0][1]["args"][1])[0] == "const"
+        ctx.ob("WIRE-prf", "key-from-cross-shard-prss", ok2, "the PRF key is drawn from cross_shard_prss() at a fixed record id: every shard of a helper holds the same key share" if ok2 else "the PRF key is not drawn from the cross-shard PRSS at a fixed index: shards evaluate different PRFs and equal match keys never meet", site_of(gk) if gk is not None else site_of(main))
+        # 3. eval_dy_prf arguments
+        ev = [(b, c) for b in tree for c in flow.find_calls(b, re.compile(r"prf_eval::eval_dy_prf$"))]
+        ok3 = False
+        if len(ev) == 1:
+            b, c = ev[0]
+            a = [flow.expr_of(b, x, max_depth=6) for x in c[1]["args"]]
+            ok3 = a[0][0] == "upvar" and a[1][0] == "upvar" and a[2][0] == "upvar" and "key" in a[2][1] and a[3] == ("arg", 2)
+        ctx.ob("WIRE-prf", "eval(ctx, record, key, points)", ok3, "eval_dy_prf(eval_ctx, record_id, prf_key, pts)" if ok3 else "eval_dy_prf is not handed (its context, the chunk's record id, the PRF key, the chunk's points)", site_of(ev[0][0], ev[0][1][0]) if ev else site_of(main))
+        # 4. zip with the same rows
+        z = flow.find_calls(main, re.compile(r"StreamExt::zip$"))
+        ok4 = False
+        if len(z) == 1:
+            a0, a1 = (flow.expr_of(main, x, max_depth=40) for x in z[0][1]["args"])
+            ok4 = a1 == ("call", "futures_util::stream::iter", (("upvar", "input_rows"),)) and "eval_dy_prf" not in str(a1) and "seq_join" in str(a0)[:400]
+            pb = flow.find_calls(main, re.compile(r"chunks::process_slice_by_chunks$"))
+            ok4 = ok4 and len(pb) == 1 and flow.expr_of(main, pb[0][1]["args"][0], max_depth=4) == ("call", "std::ops::Deref::deref", (("upvar", "input_rows"),))
+        ctx.ob("WIRE-prf", "zip(prf values, the same rows)", ok4, "the PRF values computed from input_rows are zipped with input_rows itself, unfiltered and in order" if ok4 else "the PRF stream is not zipped with exactly the rows it was computed from (reordered, filtered or another table): reports get another report's PRF value", site_of(main, z[0][0]) if z else site_of(main))
+        # 5. report construction
+        ok5, why5, site5 = False, "no PrfHybridReport is built", site_of(main)
+        for b in tree:
+            for bb, idx, s in b.iter_assigns():
+                r = s["r"]
+                if r["k"] == "agg" and re.search(r"(PrfHybridReport|IndistinguishableHybridReport)$", r.get("adt") or ""):
+                    names = [f["name"] for f in facts.adts[r["adt"]]["variants"][0]["fields"]]
+                    ops = {n: flow.expr_of(b, o, max_depth=6) for n, o in zip(names, r["ops"])}
+                    okv = all(ops[n][0] == "arg" and ops[n][-1] == n for n in ("value", "breakdown_key") if n in ops)
+                    same = len({ops[n][:3] for n in ("value", "breakdown_key") if n in ops}) == 1
+                    mkop = ops.get("match_key")
+                    okk = mkop is not None and mkop[0] == "arg" and mkop[:2] == ops["value"][:2] and mkop[:3] != ops["value"][:3]
+                    ok5 = okv and same and okk
+                    why5 = "match_key := PRF value, value := input.value, breakdown_key := input.breakdown_key of the zipped pair" if ok5 else f"PrfHybridReport fields are filled from {dict((n, str(v)[:40]) for n, v in ops.items())}: a field is taken from the wrong source"
+                    site5 = site_of(b, bb, idx)
+        ctx.ob("WIRE-prf", "report-fields", ok5, why5, site5)
+        # 6. picker
+        rs = flow.find_calls(main, re.compile(r"context::reshard_try_stream$"))
+        pk = closure_arg(main, rs[0], 2)
+        ok6 = False
+        if pk is not None:
+            r = flow.expr_of(pk, {"cp": [0]}, max_depth=8)
+            ok6 = r[0] == "call" and r[1].endswith("ops::Rem::rem") and r[2][0] == ("arg", 4, "match_key") and r[2][1] == ("call", "sharding::ShardConfiguration::shard_count", (("arg", 2),))
+        ctx.ob("WIRE-prf", "route-by-prf-value-only", ok6, "destination = report.match_key % shard_count" if ok6 else "the destination shard is not a function of the PRF value and the shard count alone: helpers (or shards) disagree about where a report goes, or equal match keys land on different shards", site_of(pk) if pk is not None else site_of(main))
+        # 7. sizes
+        sp = flow.find_calls(main, re.compile(r"TotalRecords::specified$"))
+        ok7 = len(sp) == 2 and all((lambda e: e[0] == "call" and e[1].endswith("div_round_up") and e[2][0] == ("call", "std::vec::Vec::<T, A>::len", (("upvar", "input_rows"),)))(flow.expr_of(main, c[1]["args"][0], max_depth=6)) for c in sp)
+        ctx.ob("WIRE-prf", "records=ceil(rows/chunk)", ok7, "both stages are sized div_round_up(input_rows.len(), CHUNK)" if ok7 else "a stage's record count is not ceil(rows / chunk size)", site_of(main, sp[0][0]) if sp else site_of(main))
+    finally:
+        flow.CLOSURE_DEFS = old
